@@ -141,24 +141,25 @@ theorem tail_down (c : Cfg) (ar aq : Nat) (s : S) (b : Base c ar aq s) (hcl : s.
   exact h
 
 /-- a local reply is pending (two-way): the worker re-enters at `UpFilter` -/
-theorem tail_direct (c : Cfg) (ar aq : Nat) (s : S) (b : Base c ar aq s) (hrun : s.running = true) (hcl : s.cleaned = false)
+theorem tail_direct_gen (c : Cfg) (ar aq : Nat) (s : S) (b : Base c ar aq s) (hrun : s.running = true) (hcl : s.cleaned = false)
     (how : c.oneway = false) (h3 : K3 s) (h6 : K6 s) (hpd : s.procDone = false) (hsr : s.setupRetry = false)
-    (hpass : s.pass = 0) (hheld : rsHeld s = false) (hlc : liveCount s.streams = 0) (hresp : s.resp.isSome = true)
+    (hpass : s.pass = 0) (hlc : liveCount s.streams = 0) (hresp : s.resp.isSome = true)
     (hur : s.upReset = false) (hpt : s.perTry = false) (hgt : s.global = false) (hrs : s.respStarted = false) :
-    Inv c ar aq (reenter { s with direct := false, rs := none } .UpFilter) := by
-  have hre : reenter { s with direct := false, rs := none } .UpFilter =
-      { s with direct := false, rs := none, pass := 1, phase := .UpFilter, notify := false } := by
+    Inv c ar aq (reenter { s with direct := false, rs := none, retries := (rsReset c s).retries } .UpFilter) := by
+  have hre : reenter { s with direct := false, rs := none, retries := (rsReset c s).retries } .UpFilter =
+      { s with direct := false, rs := none, retries := (rsReset c s).retries, pass := 1, phase := .UpFilter, notify := false } := by
     simp [reenter, hpass, loopBudget]
   rw [hre]
   obtain ⟨k1, k2, k4, k9, k10, k11, k12, k13, k14, k20, k21, k22, k31⟩ := b
   refine ⟨?_, k1, k2, h3, k4, ?_, h6, ?_, ?_, ?_, k10, k11, k12, ?_, k14, ?_, ?_, ?_, ?_, ?_, k20, k21, k22, ?_, ?_, ?_, ?_, ?_, ?_, ?_, ?_, ?_, ?_, (fun hh => absurd hh (by simp [hcl]))⟩
   · simp [K0, hrun, hcl]
   · intro hh; simp [hpd] at hh
-  · intro _; exact ⟨hsr, rfl⟩
+  · exact k7_intro hsr rfl
   · intro _; simp [upPhase]
-  · have h0 : heldRetry c s = 0 := by simp [heldRetry, hheld]
-    simp only [K9, h0] at k9
-    simpa [K9, heldRetry, rsHeld] using k9
+  · have h0 := rsReset_retries c s
+    simp only [K9] at k9
+    simp only [K9, heldRetry, rsHeld, Bool.and_false, Bool.false_eq_true, if_false]
+    omega
   · intro hh; simp [hcl] at hh
   · intro _ _; simp [hlc, hresp, hur, hpt, hgt, hrs]
   · intro _ hh; simp [upPhase] at hh
@@ -176,6 +177,15 @@ theorem tail_direct (c : Cfg) (ar aq : Nat) (s : S) (b : Base c ar aq s) (hrun :
   · intro hh; simp at hh
   · intro _ hh; simp [how] at hh
 
+/-- the same when the retry state holds no slot: nothing is given back -/
+theorem tail_direct (c : Cfg) (ar aq : Nat) (s : S) (b : Base c ar aq s) (hrun : s.running = true) (hcl : s.cleaned = false)
+    (how : c.oneway = false) (h3 : K3 s) (h6 : K6 s) (hpd : s.procDone = false) (hsr : s.setupRetry = false)
+    (hpass : s.pass = 0) (hheld : rsHeld s = false) (hlc : liveCount s.streams = 0) (hresp : s.resp.isSome = true)
+    (hur : s.upReset = false) (hpt : s.perTry = false) (hgt : s.global = false) (hrs : s.respStarted = false) :
+    Inv c ar aq (reenter { s with direct := false, rs := none } .UpFilter) := by
+  have := tail_direct_gen c ar aq s b hrun hcl how h3 h6 hpd hsr hpass hlc hresp hur hpt hgt hrs
+  rwa [rsReset_retries_of_not_held c s hheld] at this
+
 /-- a local reply is pending or the upstream was reset (one-way): the worker re-enters at `Oneway` -/
 theorem tail_oneway (c : Cfg) (ar aq : Nat) (s : S) (b : Base c ar aq s) (hrun : s.running = true) (hcl : s.cleaned = false)
     (how : c.oneway = true) (h3 : K3 s) (h6 : K6 s) (hpd : s.procDone = false) (hsr : s.setupRetry = false)
@@ -191,7 +201,7 @@ theorem tail_oneway (c : Cfg) (ar aq : Nat) (s : S) (b : Base c ar aq s) (hrun :
   refine ⟨?_, k1, k2, h3, k4, ?_, h6, ?_, ?_, ?_, k10, k11, k12, ?_, k14, ?_, ?_, ?_, ?_, ?_, k20, k21, k22, ?_, ?_, ?_, ?_, ?_, ?_, ?_, ?_, ?_, ?_, (fun hh => absurd hh (by simp [hcl]))⟩
   · simp [K0, hrun, hcl]
   · intro hh; simp [hpd] at hh
-  · intro _; exact ⟨hsr, rfl⟩
+  · exact k7_intro hsr rfl
   · intro _; simp
   · rcases hheld with h | ⟨h, h'⟩
     · simp only [K9, heldRetry, rsHeld, h] at k9 ⊢; exact k9
@@ -234,7 +244,7 @@ theorem tail_retry (c : Cfg) (ar aq : Nat) (s : S) (b : Base c ar aq s) (hrun : 
   refine ⟨?_, k1, k2, h3, k4, ?_, h6, ?_, ?_, k9, k10, k11, k12, ?_, k14, ?_, ?_, ?_, ?_, ?_, k20, k21, k22, ?_, ?_, ?_, ?_, ?_, ?_, ?_, ?_, k31, ?_, (fun hh => absurd hh (by simp [hcl]))⟩
   · simp [K0, hrun, hcl]
   · intro hh; simp [hpd] at hh
-  · intro _; exact ⟨rfl, hdir⟩
+  · exact k7_intro rfl hdir
   · intro _; simp
   · intro hh; simp [hcl] at hh
   · intro _ hh; simp [upPhase] at hh
